@@ -4,10 +4,12 @@
 package ux
 
 import (
+	"context"
 	"encoding/binary"
 	"encoding/json"
 	"fmt"
 	"os"
+	"os/exec"
 	"path/filepath"
 	"strings"
 	"time"
@@ -199,7 +201,7 @@ func Main(h Harness) {
 		raw, _ := json.Marshal(b)
 		pending[i] = wtask{Batch: raw}
 	}
-	crashes, hangs, cappedBatches := 0, 0, 0
+	crashes, hangs, cappedBatches, unconfirmed := 0, 0, 0, 0
 	for round := 0; len(pending) > 0 && round < 200; round++ {
 		var retry []any
 		cur := pending
@@ -240,6 +242,18 @@ func Main(h Harness) {
 					return
 				}
 				name, replay := h.CaseName(args.Tier, t.Batch, ci)
+				if !o.TimedOut && resourceExhaustion(o.Stderr) && h.Replay != nil {
+					// Memory ran out while this case was in flight - which says little about the case: the worker had been
+					// running the whole batch. The case is run once more, alone, in a fresh process under the same limit; only
+					// if that one dies as well is the exhaustion the case's doing.
+					if !confirmAlone(h, replay, timeout) {
+						unconfirmed++
+						if crashes < 500 {
+							retry = append(retry, wtask{Batch: t.Batch, From: ci + 1})
+						}
+						return
+					}
+				}
 				sig := kind + ": " + crashClass(what)
 				if o.TimedOut {
 					if site := hangSite(o.Stderr); site != "" {
@@ -296,7 +310,11 @@ func Main(h Harness) {
 	if len(total.Samples) > 8 {
 		total.Samples = total.Samples[:8]
 	}
-	extra := map[string]any{"batches": len(batches), "skipped_as_unknown": total.Skipped, "worker_crashes_attributed": crashes}
+	extra := map[string]any{"batches": len(batches), "skipped_as_unknown": total.Skipped, "worker_crashes_attributed": crashes - unconfirmed}
+	if unconfirmed > 0 {
+		// the worker's memory was used up by the batch as a whole; each such case passed when run alone
+		extra["memory_exhaustions_not_reproduced_by_the_case_alone"] = unconfirmed
+	}
 	for k, n := range total.Counts {
 		extra["count_"+k] = n
 	}
@@ -332,6 +350,49 @@ func tailLines(s string, n int) string {
 		l = l[:n]
 	}
 	return strings.Join(l, "\n")
+}
+
+// resourceExhaustion: the runtime gave up for lack of memory (address space limit of the worker).
+func resourceExhaustion(stderr string) bool {
+	return strings.Contains(stderr, "fatal error: out of memory") || strings.Contains(stderr, "cannot allocate memory") ||
+		strings.Contains(stderr, "runtime: out of memory")
+}
+
+// confirmAlone replays one case in a fresh process (same memory limit, same watchdog) and reports whether that process
+// dies of a fatal runtime error or hangs as well.
+func confirmAlone(h Harness, replay any, timeout time.Duration) bool {
+	self, err := os.Executable()
+	if err != nil {
+		return true
+	}
+	f, err := os.CreateTemp("", "verif-confirm-*.json")
+	if err != nil {
+		return true
+	}
+	defer os.Remove(f.Name())
+	b, _ := json.Marshal(map[string]any{"signature": "confirmation run", "replay": replay})
+	_, _ = f.Write(b)
+	f.Close()
+	ctx, cancel := context.WithTimeout(context.Background(), timeout)
+	defer cancel()
+	var cmd *exec.Cmd
+	if h.MemLimitKB > 0 {
+		cmd = exec.CommandContext(ctx, "/bin/sh", "-c", fmt.Sprintf("ulimit -v %d; exec \"$0\" \"$@\"", h.MemLimitKB), self, "--replay", f.Name())
+	} else {
+		cmd = exec.CommandContext(ctx, self, "--replay", f.Name())
+	}
+	cmd.Env = append(os.Environ(), "GOMAXPROCS=1")
+	out, err := cmd.CombinedOutput()
+	if ctx.Err() != nil {
+		return true // hangs alone
+	}
+	if err == nil {
+		return false
+	}
+	if ee, ok := err.(*exec.ExitError); ok && ee.ExitCode() == 1 && !strings.Contains(string(out), "fatal error") {
+		return false // ran to the end (it reported findings of its own; those are found by the batch run too)
+	}
+	return strings.Contains(string(out), "fatal error") || strings.Contains(string(out), "panic:")
 }
 
 func crashClass(s string) string {
